@@ -1,6 +1,8 @@
 use crate::macros::dispatch;
 
 pub use methods::dispatch as get_seconds;
+#[cfg(feature = "verif_hooks")]
+pub use methods::verif_inner;
 
 #[dispatch]
 mod methods {
@@ -21,5 +23,12 @@ mod methods {
 
     fn get_seconds(this: Duration) -> i64 {
         this.num_seconds() as i64
+    }
+
+    /// Forwarders to the typed overloads, for the external verification harness.
+    #[cfg(feature = "verif_hooks")]
+    pub mod verif_inner {
+        pub fn utc(this: chrono::DateTime<chrono::Utc>) -> i64 { super::get_seconds_zti(this) }
+        pub fn dur(this: chrono::Duration) -> i64 { super::get_seconds_zyi(this) }
     }
 }
